@@ -98,7 +98,13 @@ def build_steps(g):
             # (a scalar placeholder) the second path no longer exists, which must be reported
             inner = r.choice([q for q in cand if q[1].startswith(fp + '/')])
             ph = r.choice([x for x in docs.PLACEHOLDERS if x[0] not in '{['])
-            steps.append((docs.any_matcher([gp, inner[0]], ph), None, None, True))
+            if r.random() < 0.5:
+                steps.append((docs.any_matcher([gp, inner[0]], ph), None, None, True))
+            else:
+                # the other way round - the inner path first, then its container - both exist when their turn comes:
+                # no error, and in the end the container holds the placeholder (paths take effect in the order given)
+                steps.append((docs.any_matcher([inner[0], gp], ph), [fp], json.loads(ph), False))
+                set_path(cur, fp, json.loads(ph))
         elif k < 0.46 and any(isinstance(q[2], list) and q[2] and all(isinstance(e, dict) and 'first' in e for e in q[2]) for q in cand):
             # one path that addresses SEVERAL values: a member of every element of an array of records
             lgp, lfp, lv = r.choice([q for q in cand if isinstance(q[2], list) and q[2] and all(isinstance(e, dict) and 'first' in e for e in q[2])])
@@ -124,7 +130,8 @@ def build_steps(g):
             # placeholder written by the first, so a type error must be reported
             steps.append((docs.type_matcher([gp, gp], docs.go_type(v)), None, None, True))
         elif k < 0.9:
-            ph = r.choice(docs.PLACEHOLDERS)
+            # (a callback that returns nil redacts the value to null: it is a replacement like any other)
+            ph = 'null' if r.random() < 0.25 else r.choice(docs.PLACEHOLDERS)
             steps.append((docs.custom_matcher(gp, True, ph), [fp], json.loads(ph), False))
             set_path(cur, fp, json.loads(ph))
         else:
